@@ -409,6 +409,14 @@ pub fn finalise(
         let mut h = 0xcbf29ce484222325u64;
         sys::fnv(&mut h, v.to_string().as_bytes());
         let path = vd.join("replays").join(format!("{property}-{seed}-{:08x}.json", h as u32));
+        // minimise the first replay of every signature (delta debugging by replay in fresh universes)
+        let v = &if *n == 1 && std::env::var("VERIF_NO_MINIMISE").is_err() {
+            let (m, used) = crate::checks::minimise(v, 60);
+            eprintln!("minimised {sig}: {used} replays");
+            m
+        } else {
+            v.clone()
+        };
         let _ = std::fs::write(&path, serde_json::to_string_pretty(v).unwrap_or_default());
         println!("VIOLATION property={property} replay={}", path.display());
         println!("  signature: {sig}");
